@@ -73,6 +73,16 @@ func c07(tier string, args []string) int {
 		}
 		fens = append(fens, f)
 	}
+	// the draw rules inside the tree (a move into a draw is a searched move): clocks 97..99 and shuffle histories
+	drawStep := 24
+	if tier == "thorough" {
+		drawStep = 4
+	}
+	for _, f := range drawCases(append([]string{}, fens...), drawStep, false) {
+		if r, _, err := caseRef(f); err == nil && len(r.LegalMoves()) > 0 && !caseRootIsDrawn(f) {
+			fens = append(fens, f)
+		}
+	}
 	// more terminal roots: all mates / stalemates of the complete two-kings-plus-queen/rook/pawn family
 	for _, f := range smallSearchPositions(1) {
 		if r := refchess.MustFEN(f); r.Valid() && len(r.LegalMoves()) == 0 {
@@ -120,7 +130,7 @@ func c07(tier string, args []string) int {
 			s := search.NewSearch()
 			s.SetUciHandler(&capDriver{})
 			for d := 1; d <= maxDepth; d++ {
-				p, _ := position.NewPositionFen(fen)
+				p := casePos(fen)
 				// the search works on its own copy of the position; register the copy by running StartSearch
 				// through a wrapper that knows the address: StartSearch copies by value, so we key all live
 				// searches of this goroutine by root FEN instead (only used for reporting)
